@@ -5,6 +5,19 @@ import json, os, subprocess, sys, tempfile, xml.etree.ElementTree as ET
 
 repo = sys.argv[1] if len(sys.argv) > 1 else "/repo"
 base = json.load(open("/root/.vp/BASELINE.json"))
+# --nowarn: stronger regression net.  The pinned config turns DeprecationWarnings of ASE/NumPy into errors, which
+# makes 220 tests fail at the pinned commit already and masks regressions there; with `-p no:warnings` 763 tests pass at
+# the pinned commit (list in tools/base_nowarn_pass.json, produced with --record on a worktree of 03211e79).
+NOWARN = "--nowarn" in sys.argv
+RECORD = "--record" in sys.argv
+sys.argv = [a for a in sys.argv if a not in ("--nowarn", "--record")]
+if NOWARN or RECORD:
+    sys.argv.append("-p")
+    sys.argv.append("no:warnings")
+    import pathlib
+    lst = pathlib.Path(__file__).with_name("base_nowarn_pass.json")
+    if NOWARN:
+        base = {"stable_pass": json.load(open(lst))}
 fd, junit = tempfile.mkstemp(suffix=".xml"); os.close(fd)
 env = dict(os.environ)
 env.pop("ABTEM_VERIF", None)
@@ -17,6 +30,9 @@ for tc in ET.parse(junit).getroot().iter("testcase"):
     if not any(c.tag in ("failure", "error", "skipped") for c in tc):
         passed.add(f"{tc.get('classname')}::{tc.get('name')}")
 os.unlink(junit)
+if RECORD:
+    json.dump(sorted(passed), open(lst, "w"), indent=0)
+    print("recorded", len(passed)); sys.exit(0)
 mods = [a[:-3].replace("/", ".") for a in sys.argv[2:] if a.endswith(".py")]
 stable = [t for t in base["stable_pass"] if not mods or any(t.startswith(m + "::") or t.startswith(m + ".") for m in mods)]
 missing = [t for t in stable if t not in passed]
